@@ -52,7 +52,11 @@ Inductive hexc :=
 | XLocked                 (* OperationalError: database is locked *)
 | XDuplicate              (* DuplicateEntryError: the UNIQUE column *)
 | XNoConnection           (* AttributeError: the hub has nothing for this thread *)
-| XNested.                (* outside the model: the slot already held a Transaction *)
+| XNested                 (* outside the model: the slot already held a Transaction *)
+(* only produced by the nested model at the end of this file: *)
+| XBase (n : nat)         (* a BaseException that is not an Exception (KeyboardInterrupt, SystemExit, GeneratorExit): the n-th of the program *)
+| XAssert                 (* AssertionError: "This transaction has already gone through ROLLBACK" (Transaction.assertActive) *)
+| XRecursion.             (* RecursionError: Transaction._SO_delete of a transaction whose parent is a transaction calls itself *)
 
 (* what doInTransaction hands back: the body's value (here: the ids it created), or the exception
    together with the index of the body step that raised it (its identity) *)
@@ -312,3 +316,265 @@ Definition htick (h : hst) (t : nat) : hst :=
 
 Fixpoint hrun (h : hst) (sched : list nat) : hst :=
   match sched with [] => h | t :: rest => hrun (htick h t) rest end.
+
+(* ================================================================== nested calls, BaseExceptions, bodies that touch the hub *)
+(* ONE caller (one thread), big-step.  What is new against the machine above:
+   * a body step may itself be  try: hub.doInTransaction(inner) except <nothing | Exception | BaseException>: pass ;
+     doInTransaction takes whatever the hub slot holds as `old_conn` -- inside a call that is the caller's TRANSACTION --, and
+     old_conn.transaction() is DBConnection.transaction re-bound (Transaction.__getattr__): a NEW Transaction whose
+     _dbConnection is the outer transaction and whose DB-API connection is another one from the pool.  The two are independent
+     for the database: the inner commit is durable at once; an inner write after the outer wrote meets the outer's write lock;
+   * a body may raise a BaseException that is not an Exception: since e6ce2b8 doInTransaction catches BaseException, so it is
+     rolled back and re-raised like any other exception (before, `except Exception` let it through: the transaction stayed open,
+     holding the write lock, until the exception object was garbage);
+   * a body may assign / delete hub.threadConnection, and call commit() / commit(close=True) / rollback() on the transaction it
+     runs in (tx = hub.getConnection() taken when the body starts).
+   Transactions are numbered in the order they are opened (CTx id). *)
+Inductive ncatch := KNone | KExc | KAll.       (* no except clause / except Exception / except BaseException *)
+
+Inductive nbody :=
+| NEnd                                              (* return the ids created (own ones and those the inner calls returned) *)
+| NStep (st : bstep) (rest : nbody)                 (* a statement through the hub (whatever it resolves to NOW) / raise *)
+| NCall (catch : ncatch) (inner rest : nbody)       (* try: v = hub.doInTransaction(inner) except <catch>: pass *)
+| NBase (n : nat)                                   (* raise the n-th BaseException that is not an Exception *)
+| NSetThread (c : nat) (rest : nbody)               (* hub.threadConnection = DBConnection c *)
+| NDelThread (rest : nbody)                         (* del hub.threadConnection *)
+| NCommit (close : bool) (rest : nbody)             (* tx.commit(close) *)
+| NRollback (rest : nbody).                         (* tx.rollback() *)
+
+Record ntx := { nx_parent : cref;                   (* Transaction._dbConnection *)
+                nx_view : option table;             (* its private view once it wrote *)
+                nx_cached : list Z;                 (* ids its cache holds *)
+                nx_open : bool }.                   (* not _obsolete, DB-API connection not handed back *)
+
+(* what the program notes down while it runs: before every step what hub.getConnection() answers; when a doInTransaction
+   that had entered its body is left: whose it was, is that transaction still open, does anybody hold the write lock *)
+Inductive nev := EStep (r : option cref) | EExit (id : nat) (still_open : bool) (locked : bool).
+
+Record nst := {
+  n_committed : table;
+  n_lock : option nat;                 (* the transaction holding the write lock *)
+  n_slot : option cref;                (* the caller's hub.threadingLocal.connection *)
+  n_proc : option cref;                (* hub.processConnection *)
+  n_txs : list ntx;
+  n_log : list nev
+}.
+
+Definition dead_tx : ntx := {| nx_parent := CDb 0; nx_view := None; nx_cached := []; nx_open := false |}.
+Definition ntx_at (s : nst) (id : nat) : ntx := nth id (n_txs s) dead_tx.
+Definition nresolve (s : nst) : option cref := match n_slot s with Some c => Some c | None => n_proc s end.
+
+Definition nwith_committed (s : nst) (c : table) : nst :=
+  {| n_committed := c; n_lock := n_lock s; n_slot := n_slot s; n_proc := n_proc s; n_txs := n_txs s; n_log := n_log s |}.
+Definition nwith_lock (s : nst) (l : option nat) : nst :=
+  {| n_committed := n_committed s; n_lock := l; n_slot := n_slot s; n_proc := n_proc s; n_txs := n_txs s; n_log := n_log s |}.
+Definition nwith_slot (s : nst) (c : option cref) : nst :=
+  {| n_committed := n_committed s; n_lock := n_lock s; n_slot := c; n_proc := n_proc s; n_txs := n_txs s; n_log := n_log s |}.
+Definition nwith_proc (s : nst) (c : option cref) : nst :=
+  {| n_committed := n_committed s; n_lock := n_lock s; n_slot := n_slot s; n_proc := c; n_txs := n_txs s; n_log := n_log s |}.
+Definition nwith_txs (s : nst) (l : list ntx) : nst :=
+  {| n_committed := n_committed s; n_lock := n_lock s; n_slot := n_slot s; n_proc := n_proc s; n_txs := l; n_log := n_log s |}.
+Definition nlog (s : nst) (e : nev) : nst :=
+  {| n_committed := n_committed s; n_lock := n_lock s; n_slot := n_slot s; n_proc := n_proc s; n_txs := n_txs s; n_log := n_log s ++ [e] |}.
+Definition nset_tx (s : nst) (id : nat) (x : ntx) : nst := nwith_txs s (set_nth id x (n_txs s)).
+
+Definition ninstall (s : nst) (is_thr : bool) (c : cref) : nst := if is_thr then nwith_slot s (Some c) else nwith_proc s (Some c).
+Definition nlocked_by_other (s : nst) (id : nat) : bool :=
+  match n_lock s with Some i => negb (Nat.eqb i id) | None => false end.
+Definition nrelease (s : nst) (id : nat) : nst :=
+  match n_lock s with Some i => if Nat.eqb i id then nwith_lock s None else s | None => s end.
+Definition is_some {X} (o : option X) : bool := match o with Some _ => true | None => false end.
+Definition is_ctx (c : cref) : bool := match c with CTx _ => true | CDb _ => false end.
+Definition is_exception (e : hexc) : bool := match e with XBase _ => false | _ => true end.
+Definition catches (k : ncatch) (e : hexc) : bool :=
+  match k with KNone => false | KExc => is_exception e | KAll => true end.
+
+Inductive sres := SOk (created : list Z) | SRaise (e : hexc).
+
+(* Transaction.commit(close): nothing if it is obsolete; else the DB-API commit (its view becomes the committed table, the write
+   lock is free), and with close the transaction is obsolete and its connection handed back *)
+Definition tx_commit (s : nst) (id : nat) (close : bool) : nst :=
+  let x := ntx_at s id in
+  if nx_open x then
+    let s1 := match nx_view x with Some v => nwith_committed s v | None => s end in
+    nset_tx (nrelease s1 id) id {| nx_parent := nx_parent x; nx_view := None; nx_cached := nx_cached x; nx_open := negb close |}
+  else s.
+(* Transaction.rollback(): nothing if it is obsolete; else its view is gone, the lock free, the transaction obsolete *)
+Definition tx_rollback (s : nst) (id : nat) : nst :=
+  let x := ntx_at s id in
+  if nx_open x then
+    nset_tx (nrelease s id) id {| nx_parent := nx_parent x; nx_view := None; nx_cached := nx_cached x; nx_open := false |}
+  else s.
+
+(* a statement through Transaction id *)
+Definition tx_stmt (s : nst) (id : nat) (st : bstep) : nst * sres :=
+  let x := ntx_at s id in
+  let cached := nx_cached x in
+  let nested := is_ctx (nx_parent x) in
+  if negb (nx_open x) then
+    (* an obsolete transaction: whatever reaches the database goes through assertActive -- but destroySelf() of an instance that
+       is at hand (loaded before, or in this transaction's cache) enters Transaction._SO_delete, which asserts nothing and, with a
+       transaction as parent, calls itself *)
+    (s, SRaise (match st with
+                | BErase _ => if nested then XRecursion else XAssert
+                | BDelete i => if nested && mem_z i cached then XRecursion else XAssert
+                | _ => XAssert
+                end))
+  else
+  let v := match nx_view x with Some v => v | None => n_committed s end in
+  let lk := nlocked_by_other s id in
+  let go (v' : table) (c' : list Z) : nst :=
+    nset_tx (nwith_lock s (Some id)) id {| nx_parent := nx_parent x; nx_view := Some v'; nx_cached := c'; nx_open := nx_open x |} in
+  match st with
+  | BFail n => (s, SRaise (XUser n))
+  | BCreate a b =>
+      if lk then (s, SRaise XLocked)
+      else let '(i, v') := tbl_insert [a; b; None] v in (go v' (add_id i cached), SOk [i])
+  | BUpdate i c xv =>
+      if negb (get_ok v cached i) then (s, SRaise XNotFound)
+      else if lk then (s, SRaise XLocked)
+      else (go (tbl_update i c xv v) (add_id i cached), SOk [])
+  | BDelete i =>
+      if negb (get_ok v cached i) then (s, SRaise XNotFound)
+      else if nested then (s, SRaise XRecursion)
+      else if lk then (s, SRaise XLocked)
+      else (go (tbl_delete i v) (remove_id i cached), SOk [])
+  | BWrite i c xv =>
+      if lk then (s, SRaise XLocked) else (go (tbl_update i c xv v) cached, SOk [])
+  | BErase i =>
+      if nested then (s, SRaise XRecursion)
+      else if lk then (s, SRaise XLocked) else (go (tbl_delete i v) (remove_id i cached), SOk [])
+  | BDeleteMany i =>
+      if lk then (s, SRaise XLocked) else (go (tbl_delete i v) cached, SOk [])
+  | BCreateU gd a b u =>
+      if lk then (s, SRaise XLocked)
+      else if clash ucol v None u then (go v cached, if gd then SOk [] else SRaise XDuplicate)
+      else let '(i, v') := tbl_insert [a; b; u] v in (go v' (add_id i cached), SOk [i])
+  | BUpdateU gd i u =>
+      if negb (get_ok v cached i) then (s, SRaise XNotFound)
+      else if lk then (s, SRaise XLocked)
+      else if upd_clash ucol v i u then (go v (add_id i cached), if gd then SOk [] else SRaise XDuplicate)
+      else (go (tbl_update i ucol u v) (add_id i cached), SOk [])
+  | BWriteU gd i u =>
+      if lk then (s, SRaise XLocked)
+      else if upd_clash ucol v i u then (go v cached, if gd then SOk [] else SRaise XDuplicate)
+      else (go (tbl_update i ucol u v) cached, SOk [])
+  end.
+
+(* a statement through a DBConnection (autocommit), as plain_step: only the writes that do not depend on that connection's
+   instance cache are modelled *)
+Definition db_stmt (s : nst) (st : bstep) : nst * sres :=
+  let v := n_committed s in
+  let w (v' : table) (cr : list Z) : nst * sres :=
+    match n_lock s with Some _ => (s, SRaise XLocked) | None => (nwith_committed s v', SOk cr) end in
+  match st with
+  | BFail n => (s, SRaise (XUser n))
+  | BCreate a b => let '(i, v') := tbl_insert [a; b; None] v in w v' [i]
+  | BCreateU gd a b u =>
+      match n_lock s with Some _ => (s, SRaise XLocked) | None =>
+        if clash ucol v None u then (s, if gd then SOk [] else SRaise XDuplicate)
+        else let '(i, v') := tbl_insert [a; b; u] v in (nwith_committed s v', SOk [i])
+      end
+  | BWriteU gd i u =>
+      match n_lock s with Some _ => (s, SRaise XLocked) | None =>
+        if upd_clash ucol v i u then (s, if gd then SOk [] else SRaise XDuplicate)
+        else (nwith_committed s (tbl_update i ucol u v), SOk [])
+      end
+  | BWrite i c xv => w (tbl_update i c xv v) []
+  | BErase i => w (tbl_delete i v) []
+  | BDeleteMany i => w (tbl_delete i v) []
+  | _ => (s, SRaise XNested)                         (* not modelled: a fetch through a DBConnection *)
+  end.
+
+Definition nstmt (s : nst) (st : bstep) : nst * sres :=
+  match st with
+  | BFail n => (s, SRaise (XUser n))
+  | _ => match nresolve s with
+         | None => (s, SRaise XNoConnection)
+         | Some (CDb _) => db_stmt s st
+         | Some (CTx id) => tx_stmt s id st
+         end
+  end.
+
+(* hub.doInTransaction(f) where `run s1 id` is f running in the state s1 with the transaction id just opened *)
+Definition ncall_with (run : nst -> nat -> nst * result) (s : nst) : nst * result :=
+  match (match n_slot s with
+         | Some c => Some (c, true)
+         | None => match n_proc s with Some c => Some (c, false) | None => None end
+         end) with
+  | None => (s, Raised XNoConnection 0)
+  | Some (old, is_thr) =>
+      (* old_conn.transaction(): on a Transaction this goes through __getattr__, which asserts that it is active *)
+      if (match old with CTx p => negb (nx_open (ntx_at s p)) | CDb _ => false end) then (s, Raised XAssert 0)
+      else
+        let id := length (n_txs s) in
+        let s1 := ninstall (nwith_txs s (n_txs s ++ [{| nx_parent := old; nx_view := None; nx_cached := []; nx_open := true |}]))
+                           is_thr (CTx id) in
+        let '(s2, r) := run s1 id in
+        let s3 := match r with
+                  | Return _ => tx_commit s2 id true                                     (* else: conn.commit(close=True) *)
+                  | Raised _ _ => tx_rollback s2 id                                      (* except BaseException: conn.rollback() *)
+                  end in
+        let s4 := ninstall s3 is_thr old in                                              (* finally *)
+        (nlog s4 (EExit id (nx_open (ntx_at s4 id)) (is_some (n_lock s4))), r)
+  end.
+
+(* the body running in transaction `me`; k = index of the step, created = ids so far *)
+Fixpoint nexec (s : nst) (me : nat) (b : nbody) (k : nat) (created : list Z) : nst * result :=
+  match b with
+  | NEnd => (s, Return created)
+  | NStep st rest =>
+      let '(s1, r) := nstmt (nlog s (EStep (nresolve s))) st in
+      match r with
+      | SOk cr => nexec s1 me rest (S k) (created ++ cr)
+      | SRaise e => (s1, Raised e k)
+      end
+  | NCall catch inner rest =>
+      let s0 := nlog s (EStep (nresolve s)) in
+      let '(s1, r) := ncall_with (fun s1 id => nexec s1 id inner 0 []) s0 in
+      match r with
+      | Return v => nexec s1 me rest (S k) (created ++ v)
+      | Raised e _ => if catches catch e then nexec s1 me rest (S k) created else (s1, Raised e k)
+      end
+  | NBase n => (nlog s (EStep (nresolve s)), Raised (XBase n) k)
+  | NSetThread c rest => nexec (nwith_slot (nlog s (EStep (nresolve s))) (Some (CDb c))) me rest (S k) created
+  | NDelThread rest =>
+      let s0 := nlog s (EStep (nresolve s)) in
+      match n_slot s0 with
+      | None => (s0, Raised XNoConnection k)
+      | Some _ => nexec (nwith_slot s0 None) me rest (S k) created
+      end
+  | NCommit close rest => nexec (tx_commit (nlog s (EStep (nresolve s))) me close) me rest (S k) created
+  | NRollback rest => nexec (tx_rollback (nlog s (EStep (nresolve s))) me) me rest (S k) created
+  end.
+
+Definition ncall (s : nst) (body : nbody) : nst * result := ncall_with (fun s1 id => nexec s1 id body 0 []) s.
+
+(* the old bodies are bodies of the new language *)
+Fixpoint flat (l : list bstep) : nbody := match l with [] => NEnd | st :: r => NStep st (flat r) end.
+
+(* vocabulary of the theorems *)
+Fixpoint hub_pure (b : nbody) : bool :=               (* the body never assigns / deletes hub.threadConnection *)
+  match b with
+  | NEnd | NBase _ => true
+  | NStep _ r | NCommit _ r | NRollback r => hub_pure r
+  | NCall _ i r => hub_pure i && hub_pure r
+  | NSetThread _ _ | NDelThread _ => false
+  end.
+Fixpoint quiet (b : nbody) : bool :=                  (* no nested call, no commit of its own, hub left alone *)
+  match b with
+  | NEnd | NBase _ => true
+  | NStep _ r | NRollback r => quiet r
+  | _ => false
+  end.
+Fixpoint commit_free (b : nbody) : bool :=            (* the function never calls commit() on its transaction, at any depth *)
+  match b with
+  | NEnd | NBase _ => true
+  | NCommit _ _ => false
+  | NStep _ r | NRollback r | NSetThread _ r | NDelThread r => commit_free r
+  | NCall _ i r => commit_free i && commit_free r
+  end.
+(* the write lock is held by a transaction that is open (true of every state the calls produce from one without a lock) *)
+Definition lock_open (s : nst) : Prop := forall j, n_lock s = Some j -> nx_open (ntx_at s j) = true.
+(* the transactions opened from the i-th on are all obsolete and released *)
+Definition closed_from (i : nat) (s : nst) : Prop := forall j, (i <= j)%nat -> nx_open (ntx_at s j) = false.
